@@ -15,12 +15,31 @@ import (
 // propertyExtras: obligations that are not attached to one function contract (filled in per property).
 func (e *Engine) propertyExtras(prop, only string) ([]*Obligation, []*Unit) {
 	if prop != "C20" {
-		return nil, nil
+		// guards tagged with another property as well (`guarded ... [C19,C20]`): that property's result depends on
+		// the serialisation, so the same closed-world scan runs for it, restricted to those declarations
+		var tagged []*GuardedDecl
+		for _, g := range e.guarded {
+			for _, p := range g.Props {
+				if p == prop {
+					tagged = append(tagged, g)
+				}
+			}
+		}
+		if len(tagged) == 0 {
+			return nil, nil
+		}
+		saved := e.guarded
+		e.guarded = tagged
+		e.guardProp = prop
+		defer func() { e.guarded = saved }()
+		for _, g := range tagged {
+			g.Props = []string{prop}
+		}
 	}
 	fns, acc := e.guardFunctions()
 	var obls []*Obligation
 	var units []*Unit
-	{
+	if prop == "C20" {
 		// closed-world scan for variables shared with goroutines and reassigned by the spawner
 		var all []*ssa.Function
 		for fn := range e.allFuncs {
